@@ -21,11 +21,11 @@ func init() {
 	property("C13",
 		"Static conformance of constant substitution: (a) every token literal that is accumulated into an argument, operand, comparison value, case value, table-entry field, mart item or constant value passes through tryReplaceWithConstant (the only exceptions are literal parentheses); (b) names (identifiers, labels, map script names, movement steps) and text are never passed through it; (c) a constant is stored only after the duplicate check, its value is scanned up to the next top-level keyword; (d) the helper is a pure lookup that returns its argument when the name is not a constant.",
 		[]string{"that textual and token-wise replacement coincide for multi-token values is not decided"},
-		"C13.a", "C13.b", "C13.c", "C13.d", "C10.a", "C14.c", "C20.c", "C13.e", "C19.e")
+		"C13.a", "C13.b", "C13.c", "C13.d", "C10.a", "C14.c", "C20.c", "C13.e", "C19.e", "C19.f", "C13.f")
 	property("C14",
 		"Static conformance of list handling: (a) a movement multiplier is accepted exactly in [1, 9999], must be an INT, and expands to exactly that many copies; (b) the movement emitter writes the terminator exactly once on every path and nothing after it; (c) the mart emitter writes '.align 2' first, stops at the first item equal to ITEM_NONE — tested on the very value it would write — and writes the terminator once, unconditionally, after the loop; items and their tokens are parallel; (d) list parsers append each identifier once and advance on every iteration.",
 		[]string{"go/ssa lowering is faithful to the source"},
-		"C14.a", "C14.b", "C14.c", "C14.d", "C06.b", "C12.f", "C12.g", "C13.c", "C12.a", "C10.f")
+		"C14.a", "C14.b", "C14.c", "C14.d", "C06.b", "C12.f", "C12.g", "C13.c", "C12.a", "C10.f", "C19.f", "C18.k", "C14.e")
 
 	register(&Rule{ID: "C12.f", Doc: "every parsed poryswitch case is recorded under its own name, whatever its content", Floor: 5, Run: c12f})
 	register(&Rule{ID: "C13.e", Doc: "no decision depends on how many tokens a substituted value was written with", Floor: 1, Run: c13e})
@@ -620,8 +620,53 @@ func c13b(c *Ctx) {
 		}
 		c.Check(bad == "" && n > 0, "never-substituted/"+f.typ+"."+f.field, "parser/parser.go", fmt.Sprintf("%s.%s is never constant-substituted (%d stores)", f.typ, f.field, n), f.typ+"."+f.field+" is stored from a constant-substituted value at "+bad+" (names, steps and raw text must stay as written)")
 	}
-	// list parsers never call the helper
+	// what a substitution is used for: its result becomes one element of a space-joined value
+	// (appended to a []string, or written to a builder) and nothing else — it is never stored as
+	// a token's literal (a step, a name), never run through text processing (an inline string)
 	try := c.Fn("parser.Parser.tryReplaceWithConstant")
+	if try != nil {
+		nUse := 0
+		for _, ci := range c.W.callsTo(try) {
+			fn := ci.Parent()
+			if isTestFunc(c.W, fn) || fn == try {
+				continue
+			}
+			v, ok := ci.(ssa.Value)
+			if !ok || v.Referrers() == nil {
+				continue
+			}
+			nUse++
+			key := fmt.Sprintf("substitution-use/%s@%d", c.W.FuncKey(fn), c.T(fn).callOrd[ci])
+			bad := ""
+			for _, r := range *v.Referrers() {
+				switch y := r.(type) {
+				case *ssa.DebugRef:
+				case *ssa.Store:
+					// element of the varargs slice of an append
+					if ia, ok := y.Addr.(*ssa.IndexAddr); ok {
+						if a, ok := ia.X.(*ssa.Alloc); ok && a.Comment == "varargs" {
+							continue
+						}
+					}
+					bad = "stored to " + pretty(c.term(fn, y.Addr))
+				case ssa.CallInstruction:
+					if calleeName(y) == "(*strings.Builder).WriteString" {
+						continue
+					}
+					bad = "passed to " + calleeName(y)
+				default:
+					bad = fmt.Sprintf("used by %T", r)
+				}
+			}
+			arg := stripLoopTags(c.term(fn, ci.Common().Args[1]))
+			if bad == "" && !strings.HasSuffix(arg, ".Literal") {
+				bad = "applied to " + pretty(arg) + ", which is not a token literal"
+			}
+			c.Check(bad == "", key, c.W.Pos(ci.Pos()), "the substituted literal becomes one element of a space-joined value", "the result of tryReplaceWithConstant is "+bad+": constants would rewrite something other than an argument / operand / value token (movement steps, names and text must stay as written)")
+		}
+		c.Check(nUse >= 8, "substitution-use/scanned", "-", fmt.Sprintf("%d substitution sites", nUse), fmt.Sprintf("expected at least 8 substitution sites, found %d", nUse))
+	}
+	// list parsers never call the helper
 	for _, name := range []string{"parser.parseMovementValue", "parser.Parser.tryParseLabelStatement", "parser.Parser.parseTextValue", "parser.Parser.parseRawStatement", "parser.Parser.expectPeekVarOrAutoVar"} {
 		fn := c.Fn(name)
 		if fn == nil || try == nil {
